@@ -60,23 +60,23 @@ pub struct Case {
     pub edits: Vec<Edit>,
 }
 
-struct Script {
+pub(crate) struct Script {
     /// Number of bytes (fraction of what the request can take) to deliver.
-    frac: u16,
-    seed: usize,
+    pub(crate) frac: u16,
+    pub(crate) seed: usize,
     /// What the kernel did: (bid or usize::MAX for a direct buffer, bytes).
-    done: Vec<(usize, Vec<u8>, usize)>,
-    errors: Vec<String>,
+    pub(crate) done: Vec<(usize, Vec<u8>, usize)>,
+    pub(crate) errors: Vec<String>,
 }
-struct ScriptPtr(*mut Script);
+pub(crate) struct ScriptPtr(pub(crate) *mut Script);
 unsafe impl Send for ScriptPtr {}
 
-fn data_byte(seed: usize, j: usize) -> u8 {
+pub(crate) fn data_byte(seed: usize, j: usize) -> u8 {
     (seed.wrapping_mul(17).wrapping_add(j.wrapping_mul(3)).wrapping_add(0x21)) as u8
 }
 
 impl Script {
-    fn handle(&mut self, ring: &mut SimRing, serial: u64) {
+    pub(crate) fn handle(&mut self, ring: &mut SimRing, serial: u64) {
         let Some(req) = ring.req(serial).cloned() else { return };
         if req.sqe.user_data < 4 || req.done || req.sqe.opcode != abi::OP_READ {
             return;
@@ -111,7 +111,7 @@ impl Script {
     }
 }
 
-fn drive<F: Future>(world: &mut World, fut: F) -> Result<F::Output, String> {
+pub(crate) fn drive<F: Future>(world: &mut World, fut: F) -> Result<F::Output, String> {
     let mut fut = Box::pin(fut);
     let waker = WakerHandle::new();
     for _ in 0..50 {
